@@ -313,6 +313,13 @@ def scenarios(quick):
         # nesting depth 3: Sweep > Monte > Tran, Monte > Sweep > {Dc, Op}
         out.append([("sweepan", [("monte", [("tran", NUMS[4], NUMS[5], nm("t3"))], 3, nm("m2"))], "p", sw[0], nm("s1")), ("op", nm("after"))])
         out.append([("monte", [("sweepan", [("dc", "v", sw[2], nm("d3")), ("op", nm("o3"))], "q", sw[1], nm("s2"))], 4, nm("m1")), ("tran", NUMS[0], None, nm("last"))])
+    # a measurement naming, by object, an analysis of every kind
+    every = [("op", "a_op"), ("dc", "vin", sw[0], "a_dc"), ("ac", ("log", NUMS[0], NUMS[6], 3), "a_ac"), ("tran", NUMS[4], None, "a_tran"),
+             ("noise", "sig", "inst", ("log", NUMS[0], NUMS[6], 5), "a_noise"), ("sweepan", [("op", "in_sw")], "temp", sw[0], "a_sweep"),
+             ("monte", [("op", "in_mc")], 3, "a_monte"), ("custom", ".pz v(out) i(in)", "a_custom")]
+    out.append(every + [("meas", ("an", a[-1]), f"max v(x{k})", f"m{k}") for k, a in enumerate(every)])
+    for k, a in enumerate(every):
+        out.append([a, ("meas", ("an", a[-1]), "min v(y)", "mm")])
     # several unnamed analyses, flat and nested: generated names must be distinct
     out.append([("op", None), ("op", None), ("tran", NUMS[0], None, None), ("monte", [("op", None), ("op", None)], 2, None), ("sweepan", [("op", None)], "x", sw[0], None), ("op", None)])
     # controls and options, order preserved
